@@ -1,7 +1,7 @@
 (** Correspondence evaluators for C13: run the model on the inputs the
     harness fed to the implementation and compare with what it observed. *)
 From Coq Require Import List NArith ZArith Bool String.
-From Verif Require Import Lib.Bytes Sni.Wire Sni.WireChunks Sni.WireReader Sni.WireGenDefs Gen.WireSchema.
+From Verif Require Import Lib.Bytes Sni.Wire Sni.WireChunks Sni.WireReader Sni.WireOwn Sni.WireGenDefs Gen.WireSchema.
 Import ListNotations.
 Local Open Scope N_scope.
 
@@ -61,7 +61,26 @@ Definition mk_reader (shape : N) (input : bytes) : reader N :=
   | _ => mkR N [input] false
   end.
 
+(** one held request as its holder reads it: error class, id, type, message, fields *)
+Definition held_obs : Type := N * N * N * string * list value.
+
+Definition held_eqb (r : call_result) (o : held_obs) : bool :=
+  let '(e, id, t, name, vs) := o in
+  match r with
+  | CErr x => err_code (Some x) =? e
+  | CUnknown i ty => (e =? 0) && (i =? id) && (ty =? t) && String.eqb name "" && list_eqb value_eqb [] vs
+  | CReq i ty n fs => (e =? 0) && (i =? id) && (ty =? t) && String.eqb name n && list_eqb value_eqb fs vs
+  end.
+
+Fixpoint all2 {A B} (f : A -> B -> bool) (a : list A) (b : list B) : bool :=
+  match a, b with
+  | [], [] => true
+  | x :: a', y :: b' => f x y && all2 f a' b'
+  | _, _ => false
+  end.
+
 Inductive ccase :=
+| CHold (frames : list bytes) (at_decode after : list held_obs)
 | CDecS (shape : N) (name : string) (cap : N) (do_end : bool) (input : bytes)
         (exp_err exp_count : N) (exp_fields : list value) (impl_alloc : N)
 | CStartS (shape : N) (input : bytes) (exp_err : N) (exp_id exp_typ : N) (exp_name : string)
@@ -90,6 +109,11 @@ Definition err_read_code : N :=
 Definition check_case_with (schs : list (string * schema)) (tbl : request_table)
   (c : ccase) : bool :=
   match c with
+  | CHold frames at_decode after =>
+      (* decoded one after the other on one endpoint: what each decode returned, and what
+         the holder of each request reads after ALL of them, under the buffer policy of the source *)
+      all2 held_eqb (map (decode1 gen_alloc_max tbl) frames) at_decode &&
+      all2 held_eqb (held_view gen_alloc_max tbl gen_write_buf frames) after
   | CDecS shape name cap do_end input exp_err exp_count exp_fields impl_alloc =>
       match assoc_str name schs with
       | Some sch =>
